@@ -120,6 +120,9 @@ def main():
             known_hit.setdefault(f["key"], f)
         else:
             new_fail.append(f)
+    if os.environ.get("VERIF_DUMP_KNOWN"):
+        os.makedirs(os.path.join(core.ROOT, "work", prop), exist_ok=True)
+        json.dump(known_hit, open(os.path.join(core.ROOT, "work", prop, "known_hits.json"), "w"), indent=1)
     for key, f in sorted(known_hit.items()):
         print("KNOWN-FINDING: property=%s %s" % (prop, known[(prop, key)]["what"]))
     # tie breaks that are fully explained by known findings (same key) do not alarm
